@@ -427,6 +427,7 @@ type FuncSpec struct {
 	Trusted  bool
 	Pure     bool   // assigns nothing, deterministic in args+heap
 	NoPanic  bool   // generate safety obligations
+	Witness  []*Clause // named entry-state terms whose counterexample values the replay generators need
 	NoInline bool
 	OpaqueCallees bool
 	Inline   bool
@@ -785,6 +786,20 @@ func (db *SpecDB) parseSpecText(text, file, pkgPath string) error {
 			}
 			cur.Pure = true
 			cur.HasAssigns = true
+		case "witness":
+			// witness name: expr — a term over the entry state reported with every counterexample
+			if cur == nil {
+				return fail("witness outside func")
+			}
+			i := strings.Index(rest, ":")
+			if i < 0 {
+				return fail("witness name: expr")
+			}
+			ex, err := parseExpr(strings.TrimSpace(rest[i+1:]))
+			if err != nil {
+				return fail(err.Error())
+			}
+			cur.Witness = append(cur.Witness, &Clause{Label: strings.TrimSpace(rest[:i]), Src: strings.TrimSpace(rest[i+1:]), E: ex})
 		case "nopanic":
 			if cur == nil {
 				return fail("nopanic outside func")
